@@ -126,12 +126,20 @@ def numba_newton_raphson(
         # ... and then update the latest point.
         func_evals[2] = function(iterates[2], *function_arguments)
 
-        # Every 3rd step we do a Aitken series acceleration step
-        aitken_step = aitken_acceleration and current_iteration % 3 == 0
+        # Every 3rd step we do a Aitken series acceleration step - once the root
+        # is bracketed and if the last two steps contract. Otherwise the iterates
+        # are not a linearly converging sequence and the extrapolation can end up
+        # anywhere.
+        aitken_step = (
+            aitken_acceleration and current_iteration % 3 == 0 and root_bounded
+        )
         if aitken_step:
-            # We do an Aitkon step
             numerator = iterates[2] - iterates[1]
             denominator = iterates[1] - iterates[0]
+            aitken_step = abs(numerator) < abs(denominator)
+
+        if aitken_step:
+            # We do an Aitkon step
             ratio = numerator / denominator
             next_iterate = iterates[2] + ratio / (1.0 - ratio) * (numerator)
 
